@@ -49,6 +49,48 @@ def TGT(r, degree, si, i):
 def MINR(a, b):
     return a if a <= b else b
 '''
+# the same precedence for the reference carrier (what the design of the next span and the per-degree reference power use)
+SPEC_ROADM_REF = SPEC_ROADM + '''
+def TGT_REF(r, degree):
+    return (r.per_degree_pch_out_dbm[degree] if degree in r.per_degree_pch_out_dbm else
+            PSD(r.per_degree_pch_psd[degree], r.ref_carrier.baud_rate) if degree in r.per_degree_pch_psd else
+            PSD(r.per_degree_pch_psw[degree], r.ref_carrier.slot_width) if degree in r.per_degree_pch_psw else
+            r.target_pch_out_dbm if r.target_pch_out_dbm is not None else
+            PSD(r.target_psd_out_mWperGHz, r.ref_carrier.baud_rate) if r.target_psd_out_mWperGHz is not None else
+            PSD(r.target_out_mWperSlotWidth, r.ref_carrier.slot_width))
+'''
+_SOME_TARGET = ('some_target', 'self.target_pch_out_dbm is not None or self.target_psd_out_mWperGHz is not None or '
+                               'self.target_out_mWperSlotWidth is not None')
+_POS_REF = ('ref_carrier', 'self.ref_carrier.baud_rate > 0 and self.ref_carrier.slot_width > 0')
+_POS_DENS = ('positive_densities', 'implies(degree in self.per_degree_pch_psd, self.per_degree_pch_psd[degree] > 0) and '
+                                   'implies(degree in self.per_degree_pch_psw, self.per_degree_pch_psw[degree] > 0) and '
+                                   'implies(self.target_psd_out_mWperGHz is not None, self.target_psd_out_mWperGHz > 0) and '
+                                   'implies(self.target_out_mWperSlotWidth is not None, self.target_out_mWperSlotWidth > 0)')
+contract('gnpy.core.elements.Roadm.get_per_degree_ref_power', props=['C06', 'C09'],
+         params={'self': ROADM, 'degree': string()}, spec=SPEC_ROADM_REF,
+         requires=[_SOME_TARGET, _POS_REF, _POS_DENS],
+         ensures=[('degree_setting_before_node_setting', 'result == TGT_REF(self, degree)')],
+         returns=real(), use_at_calls=False, modifies=[])
+contract('gnpy.core.elements.Roadm.get_per_degree_power', props=['C06'],
+         params={'self': ROADM, 'degree': string(), 'spectral_info': SI()}, spec=SPEC_ROADM_REF,
+         let={'si': 'spectral_info', 'n': 'NCH(spectral_info)'},
+         requires=[_SOME_TARGET, _POS_DENS, ('bw', 'forall(lambda i: si._baud_rate[i] > 0 and si._slot_width[i] > 0, n)')],
+         # scalar (constant power) or one value per channel, always the target TGT of Roadm.propagate
+         ensures=[('degree_setting_before_node_setting', 'forall(lambda i: at(result, i) == TGT(self, degree, si, i), n)')],
+         use_at_calls=False, modifies=[])
+contract('gnpy.core.elements.Roadm.get_roadm_target_power', name='gnpy.core.elements.Roadm.get_roadm_target_power[reference carrier]',
+         props=['C06', 'C09'],
+         params={'self': ROADM, 'spectral_info': const(None)}, spec=SPEC_ROADM_REF,
+         requires=[_POS_REF, ('positive_densities', 'implies(self.target_psd_out_mWperGHz is not None, self.target_psd_out_mWperGHz > 0) and '
+                                                    'implies(self.target_out_mWperSlotWidth is not None, self.target_out_mWperSlotWidth > 0)')],
+         ensures=[('power_before_psd_before_psw', 'implies(self.target_pch_out_dbm is not None, result == self.target_pch_out_dbm) and '
+                   'implies(self.target_pch_out_dbm is None and self.target_psd_out_mWperGHz is not None, result == PSD(self.target_psd_out_mWperGHz, self.ref_carrier.baud_rate)) and '
+                   'implies(self.target_pch_out_dbm is None and self.target_psd_out_mWperGHz is None and self.target_out_mWperSlotWidth is not None, '
+                   'result == PSD(self.target_out_mWperSlotWidth, self.ref_carrier.slot_width))'),
+                  ('none_only_without_any_target', 'iff(result is None, self.target_pch_out_dbm is None and self.target_psd_out_mWperGHz is None '
+                                                   'and self.target_out_mWperSlotWidth is None)')],
+         use_at_calls=False, modifies=[])
+
 contract('gnpy.core.elements.Roadm.propagate', props=['C06', 'C01', 'C02', 'C05'],
          params={'self': ROADM, 'spectral_info': SI(), 'degree': string(), 'from_degree': string()}, spec=SPEC_ROADM,
          let={'maxloss': "self.get_impairment('roadm-maxloss', spectral_info._frequency, from_degree, degree)",
